@@ -5,7 +5,11 @@ import (
 	"encoding/binary"
 	"fmt"
 	"path/filepath"
+	"sync"
+	"testing"
 	"time"
+
+	"pgregory.net/rapid"
 
 	"vh/drv"
 )
@@ -255,6 +259,81 @@ func (c13) Run(c *Ctx, csAny any) Outcome {
 		}
 		out.Classes = append(out.Classes, "failfile-differential")
 	}
+	// one function value returned by MakeFuzz, called from two sub-tests that overlap in time: each call has to see
+	// exactly what it sees when it runs alone
+	if len(input) >= 16 && len(cs.Extra) > 0 {
+		other := append(append([]byte{}, cs.Extra...), input[:len(input)/2]...)
+		if v := sharedFuzzFn(input, other); v != nil {
+			out.Viol = v
+			return out
+		}
+		out.Classes = append(out.Classes, "same-function-concurrently")
+	}
 	_ = bytes.Equal
 	return out
+}
+
+// sharedFuzzFn calls ONE function returned by MakeFuzz with two inputs: first one after the other (reference), then
+// from two sub-tests that meet at a barrier after their first draw. Calls are told apart by the sub-test name.
+func sharedFuzzFn(a, b []byte) *Violation {
+	var mu sync.Mutex
+	draws := map[string][]uint64{}
+	var arrive chan struct{}
+	var both chan struct{}
+	g := rapid.Uint64()
+	f := rapid.MakeFuzz(func(t *rapid.T) {
+		name := t.Name()
+		rec := func(v uint64) {
+			mu.Lock()
+			draws[name] = append(draws[name], v)
+			mu.Unlock()
+		}
+		rec(g.Draw(t, "w"))
+		if arrive != nil {
+			arrive <- struct{}{}
+			select {
+			case <-both:
+			case <-time.After(3 * time.Second):
+			}
+		}
+		for i := 0; i < 6; i++ {
+			rec(g.Draw(t, "w"))
+		}
+	})
+	call := func(in []byte, out *[]uint64) func(t *testing.T) {
+		return func(t *testing.T) {
+			name := t.Name()
+			defer func() {
+				mu.Lock()
+				*out = append([]uint64{}, draws[name]...)
+				mu.Unlock()
+			}()
+			f(t, in)
+		}
+	}
+	var soloA, soloB, parA, parB []uint64
+	ra := Hosted(call(a, &soloA))
+	rb := Hosted(call(b, &soloB))
+	arrive, both = make(chan struct{}, 2), make(chan struct{})
+	go func() {
+		n := 0
+		timeout := time.After(3 * time.Second)
+		for n < 2 {
+			select {
+			case <-arrive:
+				n++
+			case <-timeout:
+				n = 2
+			}
+		}
+		close(both)
+	}()
+	pa, pb := HostedPair(call(a, &parA), call(b, &parB))
+	if fmt.Sprint(soloA) != fmt.Sprint(parA) || ra.Status != pa.Status {
+		return violf("C13:depends-on-concurrent-call", "one MakeFuzz function, input %x: alone it draws %x (%s), while another call with input %x is in progress it draws %x (%s)", a, soloA, ra.Status, b, parA, pa.Status)
+	}
+	if fmt.Sprint(soloB) != fmt.Sprint(parB) || rb.Status != pb.Status {
+		return violf("C13:depends-on-concurrent-call", "one MakeFuzz function, input %x: alone it draws %x (%s), while another call with input %x is in progress it draws %x (%s)", b, soloB, rb.Status, a, parB, pb.Status)
+	}
+	return nil
 }
